@@ -54,6 +54,10 @@ def run(ctx, rep):
     rep.guarded("R12-KEY", lambda: r_key(sh, rep))
     rep.guarded("R12-KEY", lambda: c01.r_typekey(sh, rep))
     rep.guarded("R01-CAST", lambda: cast_rules.rule_cast(sh, rep, "R01-CAST"))
+    rep.rule("R12-VARKEY", "a schema's definition key and its content resolve a bound type variable alike (the key follows every binding the content follows)", floor=2)
+    rep.guarded("R12-VARKEY", lambda: r_varkey(sh, rep))
+    rep.rule("R12-CONSTMAP", "constant folding to Data decides map-vs-list from the list's element type, not from its elements", floor=1)
+    rep.guarded("R12-CONSTMAP", lambda: r_constmap(sh, rep))
     rep.rule("R12-TOTAL", "no unreviewed panic site reachable from Parameter::validate", floor=2)
 
     def total():
@@ -209,3 +213,81 @@ def r_key(sh, rep):
     f = find_fn(sh.file(GEN), "push_type_identity")
     ten = find_enum(sh.file("crates/aiken-lang/src/tipo.rs"), "Type")
     traversal_check(rep, "R12-KEY", sh, GEN, "push_type_identity", f, ten, ["Type"], require_recursion={"push_type_identity"}, exceptions={"Var": "delegates to the linked type inside the RefCell (checked by the #delegates instance)"})
+
+
+# ---------------------------------------------------------------------------------------------------------
+# R12-VARKEY: definitions are stored under Reference::from_type(t) and filled by Annotated::do_from_type(t)
+# ---------------------------------------------------------------------------------------------------------
+DEFS = "crates/aiken-project/src/blueprint/definitions.rs"
+
+
+def _var_arm(sh, rel, fn):
+    ten = find_enum(sh.file("crates/aiken-lang/src/tipo.rs"), "Type")
+    m = find_enum_match(fn, "Type", {v["name"] for v in ten["variants"]})
+    if m is None:
+        raise AnchorMissing("match over Type in %s" % fn["name"])
+    arms = [arm for v, arm, alt in arm_table(m) if v == "Var"]
+    if not arms:
+        raise AnchorMissing("Type::Var arm in %s" % fn["name"])
+    return arms[0]
+
+
+def _conds(sh, rel, node):
+    out = set()
+    for n in walk(node):
+        if n.get("k") == "If" and isinstance(n.get("cond"), dict):
+            for c in ([n["cond"]] if n["cond"].get("k") != "Binary" or n["cond"].get("op") != "&&" else [n["cond"]["l"], n["cond"]["r"]]):
+                if c.get("k") != "LetCond":
+                    out.add(sh.nsrc(rel, c))
+        if n.get("k") == "Arm" and n.get("guard"):
+            out.add(sh.nsrc(rel, n["guard"]))
+    return out
+
+
+def r_varkey(sh, rep):
+    """Definitions::register stores a schema under the key Reference::from_type(t, params) and fills it with
+    Annotated::do_from_type(t, params). For a type variable both look the binding up in `params`. They must follow the same
+    bindings: if the key stops at a binding the content follows (say, a variable bound to another variable), the key of
+    `Inner<b>` no longer depends on the instantiation while its content does — the first instantiation's schema is
+    published for all of them, and the schema admits values the compiled `expect` refuses. Sibling rule: every condition
+    under which the key declines to follow a binding is also a condition of the content generator."""
+    kf = find_method(sh.file(DEFS), "Reference", "from_type")
+    cf = find_method(sh.file(SCH), "Annotated", "do_from_type")
+    rep.touched(DEFS, "Reference::from_type")
+    rep.touched(SCH, "Annotated::do_from_type")
+    ka, ca = _var_arm(sh, DEFS, kf), _var_arm(sh, SCH, cf)
+    follows = [c for c in walk(ka["body"]) if c.get("k") == "Call" and last(call_name(c) or "") == "from_type"]
+    looks = [c for c in walk(ka["body"]) if c.get("k") == "MethodCall" and c["m"] == "get" and "type_parameters" in sh.nsrc(DEFS, c["recv"])]
+    rep.check(len(looks) == 1 and len(follows) >= 2, "R12-VARKEY", "key#looks-up-and-follows", sh.loc(DEFS, ka), "the Var arm of Reference::from_type must look the variable up in type_parameters and recurse on the binding (lookups %d, recursive calls %d)" % (len(looks), len(follows)), sample={"lookups": len(looks), "recursions": len(follows)})
+    kc = {re.sub(r"^!", "", c) for c in _conds(sh, DEFS, ka["body"])}
+    cc = {re.sub(r"^!", "", c) for c in _conds(sh, SCH, ca["body"])}
+    extra = sorted(kc - cc)
+    rep.check(not extra, "R12-VARKEY", "key#no-condition-the-content-lacks", sh.loc(DEFS, ka), "Reference::from_type declines to follow a type-variable binding under %s, a condition Annotated::do_from_type does not have: key and content of a generic definition then depend on different things" % extra, sample={"key_conditions": sorted(kc), "content_conditions": sorted(cc)})
+
+
+# ---------------------------------------------------------------------------------------------------------
+# R12-CONSTMAP: convert_constants_to_data — a constant list of pairs is a Data map, also when it is empty
+# ---------------------------------------------------------------------------------------------------------
+def r_constmap(sh, rep):
+    """A `Pairs<k, v>` constant becomes Data::map, any other list Data::list. An empty list has no first element, so the
+    only thing that tells `[]: Pairs<..>` from `[]: List<..>` is the element type carried by the ProtoList constant:
+    the arm must bind it and the map/list decision must depend on it (and on nothing about the elements)."""
+    f = find_fn(sh.file(GB), "convert_constants_to_data")
+    rep.touched(GB, "convert_constants_to_data")
+    arms = [a for m in matches_in(f["body"]) for a in m["arms"] if any(last(pat_head(x) or "") == "ProtoList" for x in pat_alts(a["pat"]))]
+    if not arms:
+        raise AnchorMissing("ProtoList arm in convert_constants_to_data")
+    arm = arms[0]
+    pat = [x for x in pat_alts(arm["pat"]) if last(pat_head(x) or "") == "ProtoList"][0]
+    elems = pat.get("elems") or pat.get("args") or []
+    ty = elems[0].get("name") if elems and elems[0].get("k") == "Ident" else None
+    items = elems[1].get("name") if len(elems) > 1 and elems[1].get("k") == "Ident" else None
+    decide = []
+    for n in walk(arm["body"]):
+        if n.get("k") == "If":
+            src = sh.nsrc(GB, n["cond"])
+            branches = sh.nsrc(GB, n["then"]) + "|" + (sh.nsrc(GB, n["else"]) if n.get("else") else "")
+            if re.search(r"Data::map|PlutusData::Map", branches) and re.search(r"Data::list|PlutusData::Array", branches):
+                decide.append(src)
+    ok = ty is not None and len(decide) == 1 and re.search(r"\b%s\b" % re.escape(ty), decide[0]) and not (items and re.search(r"\b%s\b" % re.escape(items), decide[0]))
+    rep.check(bool(ok), "R12-CONSTMAP", "ProtoList#map-iff-element-type-is-pair", sh.loc(GB, arm), "the map-vs-list decision `%s` must test the list's element type (binding `%s`) and not its elements (`%s`): an empty Pairs constant nested in a constant container is otherwise folded to an empty list, which `expect` and the blueprint schema both refuse" % (decide[0] if decide else "<none found>", ty, items), sample={"decision": decide[:1], "type_binding": ty})
